@@ -120,7 +120,7 @@ class SimulationState(SimulationStateBase, Generic[TState], metaclass=abc.ABCMet
         dims = [q.dimension for q in qubits]
         for indices, confuser in confusion_map.items():
             mat_dims = [dims[k] for k in indices]
-            row = value.big_endian_digits_to_int((bits[k] for k in indices), base=mat_dims)
+            row = value.big_endian_digits_to_int((confused[k] for k in indices), base=mat_dims)
             new_val = self.prng.choice(len(confuser), p=confuser[row])
             new_bits = value.big_endian_int_to_digits(new_val, base=mat_dims)
             for i, k in enumerate(indices):
